@@ -244,7 +244,7 @@ def mutate(prop, case, rng):
 
 
 def count(prop, tier):
-    return 1000 if tier == 'quick' else 50000
+    return 3000 if tier == 'quick' else 50000
 
 
 def projection(prop):
